@@ -1,4 +1,21 @@
-import MV.Model.Par
+import Driver.Par
+/-! `mvdriver`: reads one request per line on stdin, prints one answer per line.
+First token = engine. -/
+
+def dispatch (line : String) : String :=
+  match line.trimAscii.toString.splitOn " " |>.filter (· ≠ "") with
+  | "par" :: rest => ParDrv.handle rest
+  | _ => "bad-engine"
+
+partial def loop (h : IO.FS.Stream) (out : IO.FS.Stream) : IO Unit := do
+  let line ← h.getLine
+  if line.isEmpty then return ()
+  out.putStrLn (dispatch line)
+  loop h out
+
 def main (_args : List String) : IO UInt32 := do
-  IO.println "mvdriver"
+  let stdin ← IO.getStdin
+  let stdout ← IO.getStdout
+  loop stdin stdout
+  stdout.flush
   return 0
